@@ -32,7 +32,7 @@ CHECKS["C02"] = dict(
          "unsatisfiable call returned; any exception other than SolveFailure out of the library. Satisfiability is decided by "
          "exhaustive enumeration of the reference semantics over the call's random fields.",
     design_ref="DESIGN.md section 3, C02",
-    note="Trusted: ref.py; bounded domains (<= 10/14 random bits). One known finding (F23) is classified by mechanism.",
+    note="Trusted: ref.py; bounded domains (<= 10/14 random bits). Open known findings (random-size lists: F9, F26, F27) are classified by mechanism.",
 )
 
 _SOLVER_NOTE = ("Trusted: ref.py (never imports vsc) on the validated input language (ref.Corner => not judged); exhaustive "
@@ -104,7 +104,7 @@ CHECKS["C14"] = dict(
          "quarter of the cases are tiny and are enumerated completely over the choice points of the RandState: a feasible value with "
          "probability exactly 0 is starved. The run is inconclusive unless >= 50% of the satisfiable calls had a really narrowed range.",
     design_ref="DESIGN.md section 3, C14; section 2.3 M2/M3", note=_SOLVER_NOTE + " Exact starvation verdicts only from complete choice "
-    "enumerations (<= 6000 paths quick); known findings F8, F17, F24r are genuine C14 defects classified by mechanism.")
+    "enumerations (<= 6000 paths quick); the C14 defects found (singleton-range literal, F8, F17, F24r) have been repaired in /repo (known_findings.json, 'fixed').")
 
 CHECKS["C15"] = dict(
     level="exploration",
@@ -199,10 +199,11 @@ CHECKS["C17"] = dict(
 CHECKS["C20"] = dict(
     level="exploration",
     technique="choice-point injection into RandState: complete enumeration of the real randomize() yields the exact joint distribution; metamorphic comparison of the earlier variable's marginal",
-    text="Metamorphic pairs of programs with solve_order (a before b, optionally b before c, lists of earlier fields, directive in its own "
-         "block) that differ only in how many values of the later variable accompany each value of the earlier one. Each program is "
+    text="Metamorphic pairs of programs with solve_order (a before b; chains a-b-c written as two statements or as three statements a-b, b-c, a-c "
+         "in any order; a and b each before c in two statements; lists of earlier fields; directive in its own block) that differ only in how many values of the later variable accompany each value of the earlier one. Each program is "
          "enumerated completely over the RandState choice points. Judged: every feasible value of a has probability > 0; the marginal is "
          "uniform when feasible(a) fills the range the library inferred for a (read at the hook); the marginal of a is IDENTICAL in the two "
-         "programs; every path satisfies the constraints; no path of a satisfiable system raises.",
+         "programs (chains: the joint distribution of (a, b) when only the b-c coupling differs; fan-in: only starvation of a and b); every "
+         "path satisfies the constraints; no path of a satisfiable system raises.",
     design_ref="DESIGN.md section 3, C20; section 2.3 M3", note="Only complete enumerations are judged (<= 8000 paths per program in the quick tier, 100000 thorough).")
 NOT_YET = {}
